@@ -71,6 +71,10 @@ YAML_FAULTS = ["unknown_role", "undefined_ref", "missing_image", "unknown_direct
 def block_lines(b):
     t, k = b["t"], b["n"]
     if t == "text":
+        if b.get("ff"):
+            # a form feed (an old-fashioned page break) or a vertical tab inside a line is white space, not a line end: every line below
+            # keeps its number
+            return [f"Plain paragraph{chr(12) if k % 2 else chr(11)} number {k}.", ""], None, None
         return [f"Plain paragraph number {k}.", ""], None, None
     if t == "unknown_directive":
         return [f".. bogusdirective{k}::", ""], 0, ["DocUtilsParseError"]
@@ -687,6 +691,8 @@ class C14(core.PropertyCheck):
                     out.append({"t": rng.choice(kinds), "n": counter[0]})
                 else:
                     out.append({"t": "text", "n": counter[0]})
+                    if kinds is PAGE_FAULTS and rng.random() < 0.25:
+                        out[-1]["ff"] = True     # rst files only (YAML does not accept such characters)
             return out
 
         npages = rng.randint(1, 4)
